@@ -205,6 +205,8 @@ def n5_run(carve):
         "two_eq": (lambda l, r: (l.k == r.k) & (l.h == r.g), lambda a, b: a[0] is not None and b[0] is not None and a[0] == b[0] and a[2] == b[2]),
         "two_eq_second_swapped": (lambda l, r: (l.k == r.k) & (r.g == l.h), lambda a, b: a[0] is not None and b[0] is not None and a[0] == b[0] and a[2] == b[2]),
         "three_eq_mixed_sides": (lambda l, r: (r.k == l.k) & (l.h == r.g) & (r.y >= l.x), lambda a, b: a[0] is not None and b[0] is not None and a[0] == b[0] and a[2] == b[2] and b[1] >= a[1]),
+        "all3": (lambda l, r: pdt.all(l.k == r.k, l.x < r.y, l.h + 1 >= r.g), lambda a, b: a[0] is not None and b[0] is not None and a[0] == b[0] and a[1] < b[1] and a[2] + 1 >= b[2]),
+        "all3_eq": (lambda l, r: pdt.all(l.k == r.k, l.h == r.g, r.y >= l.x), lambda a, b: a[0] is not None and b[0] is not None and a[0] == b[0] and a[2] == b[2] and b[1] >= a[1]),
         "expr_key": (lambda l, r: l.k + 1 == r.k, lambda a, b: a[0] is not None and b[0] is not None and a[0] + 1 == b[0]),
         # keys of different numeric type (Float64 on the left, Int64 on the right)
         "eq_float_int": (lambda l, r: l.kf == r.k, lambda a, b: a[3] is not None and b[0] is not None and a[3] == b[0]),
@@ -347,7 +349,7 @@ def obligations(tier):
                                       functions=f, bounded=f"table widths {ls.w} and {rs.w} (names symbolic, collisions explored)", tags=("cross_backend",),
                                       carveouts={"join_helper_names": "no column is named __INDEX__ or <left column>_right"}, replayer=make_replayer(ls, rs, label, fn, "polars" if backend == "polars" else "sqlite")))
     obs.append(Obligation("C06/N5/native_matrix", "N5", "exact row combinations of inner / left / full joins natively", n5_run, functions=fns_p + [fi(H.sql_backend.SqlImpl.compile_ast)],
-                          bounded="13 predicate shapes (incl. Float64 vs Int64 keys, equalities written from either side) x 3 join kinds x 8 operand variants (plain, hidden right key, filtered left / right, constant or computed non-null-propagating column on either side) x 2 backends on one pair of 6-row tables with nulls, duplicates and unmatched rows"))
+                          bounded="15 predicate shapes (incl. pdt.all(...) of three predicates) (incl. Float64 vs Int64 keys, equalities written from either side) x 3 join kinds x 8 operand variants (plain, hidden right key, filtered left / right, constant or computed non-null-propagating column on either side) x 2 backends on one pair of 6-row tables with nulls, duplicates and unmatched rows"))
     obs.append(Obligation("C06/N6/wrappers", "N6", "inner_join / left_join / full_join / cross_join are join(how=...)", n6_run, functions=[fi(verbs_mod.inner_join), fi(verbs_mod.left_join), fi(verbs_mod.full_join), fi(verbs_mod.cross_join), fi(verbs_mod.join)],
                           bounded="3 wrappers x 3 keyword sets x 3 shapes of `on` (+ cross_join); the wrappers are straight-line calls"))
     return obs
